@@ -19,7 +19,7 @@ func justify(s *sim.Sim, st *sim.Step, U string) string {
 	}
 	// (c) remember cookie: no uid at request start, live unspent cookie issued to U
 	if s.RememberActive() && rec.SessIn["uid"] == "" {
-		if c := s.Cookies[rec.CookiesIn["rm"]]; c != nil && c.State == sim.Live && c.PID == U {
+		if c := s.Cookies[rec.CookiesIn["rm"]]; c != nil && (c.State == sim.Live || c.State == sim.Limbo) && c.PID == U {
 			return "remember-cookie"
 		}
 	}
